@@ -72,6 +72,10 @@ func getSessionLocked(key string, c redis.Conn) (*gmqtt.Session, error) {
 	if err != nil {
 		return nil, err
 	}
+	if len(replay) > 0 && replay[0] == nil {
+		// no such session (HMGET on a missing key returns nils)
+		return nil, nil
+	}
 	sess := &gmqtt.Session{}
 	var connectedAt uint32
 	var will []byte
